@@ -92,8 +92,16 @@ def one(rnd, nproc, nops, clear_p):
             gs[p].kill(GiveUp, block=False)
         if all(g.dead or p in blocked for p, g in gs.items()) and rounds > 5 and rnd.random() < 0.5:
             break
-    for _ in range(5):
+    # quiescence: the hub has nothing left to run (a released count whose notification is still on its way to a waiter is not
+    # a stranded waiter) - wait until a whole idle round changes nothing
+    prev = None
+    for _ in range(100):
+        gevent.idle()
         gevent.sleep(0)
+        cur = (len(ev), d.sema.counter, len(d), len(blocked))
+        if cur == prev:
+            break
+        prev = cur
     ev.append({'t': 'end', 'items': list(d), 'count': d.sema.counter, 'waiting': [{'p': p, 'side': s} for p, s in sorted(blocked.items())]})
     for g in gs.values():
         g.kill(block=False)
